@@ -15,6 +15,14 @@ CLAIMS = {
             "Coq theorem C13_all_or_nothing over a model of do_source_file()/backup.cpp as a monadic list of libc-level operations on an abstract file system: for EVERY fault plan (any number of failing operations / full devices) and EVERY crash point (before any operation, inside any write), in every in-place mode, the path holds the complete original or complete formatted bytes, a due backup holds the original whenever the path changed, and exit 0 implies completion. Tie: an LD_PRELOAD interposer numbers the real binary's operations the same way; every crash/fault point of every scenario is replayed on the binary and trace, exit status and every file are compared with the model; the theorem's statement is also checked on the real file system after each run.",
             "Trusted: Coq kernel, extraction, driver glue, the interposer (glibc stdio, /dev/full as ENOSPC), atomic rename(2), no durability/fsync modelling, files < 1 KiB in the compare loop, MD5 abstracted as an injective digest (checked against hashlib on explored runs).",
             "DESIGN.md section 6 C13"),
+    "C14": ("proof",
+            "Coq theorems over a content-level model of the backup protocol (coq/Model/Backup.v): for EVERY history of user edits and completed --replace runs (any formatter per run) the backup holds exactly the text the file had before the earliest run since the last edit and the md5 file describes what uncrustify last left (refinement to a digest-free specification, by induction over the history); with runs killed in any phase, the text to protect stays recoverable along every admissible history (inductive invariant). The one excluded kill window is proved to be a real loss (witness theorem) and is a recorded finding. Tie: all histories up to length 3 (thorough 4) over edits / two configurations / kill phases are executed on the real binary and compared after every step with Backup.step and with the operation-level model FsProto.run.",
+            "Trusted: Coq kernel, extraction, driver glue, interposer for kills; MD5 is abstracted as an injective digest (Section hypothesis h_inj, checked against hashlib on explored runs); an edit that retypes exactly uncrustify's recorded output is indistinguishable from no edit by design of the protocol and is excluded by 'admissible'.",
+            "DESIGN.md section 6 C14"),
+    "C12": ("proof",
+            "Coq theorems over model E (FsProto): --check leaves every file untouched for EVERY fault plan and crash point; its exit status is 0 exactly when formatting reproduces the file (1 when it differs, the formatter's status when formatting fails); several files: status 0 iff none failed; --if-changed with -o/stdout writes exactly when the formatted bytes differ, then exactly those bytes, and touches nothing else (in-place variants are covered by C13's theorem). Tie: interposer trace/exit/files vs the extracted model, and direct oracles on real runs: directory snapshot (size, mtime, inode) around --check, PASS/FAIL lines and exit status against an independent normal run, bytes written by --if-changed against a normal run, for formatted/unformatted/empty inputs and one-byte perturbations (same-size middle/last byte, size +-1) in ASCII, UTF-8+BOM, UTF-16.",
+            "Trusted: Coq kernel, extraction, driver glue, interposer; the int index of bout_content_matches is modelled as list equality (sizes < 2^31); stdin+--if-changed is a recorded finding.",
+            "DESIGN.md section 6 C12"),
 }
 
 
